@@ -24,7 +24,7 @@ from .. import tlc, local, evalmon, corpus, inputs
 
 PID = 'C12'
 
-CH = {'sq': "'", 'dq': '"', 'bs': '\\', 'nl': '\n', 'cr': '\r', 'nul': '\x00', 'lb': '{', 'na': u'é', 'n': 'n', 'x': 'x', 'zero': '0'}
+CH = {'sur': u'\ud800', 'sq': "'", 'dq': '"', 'bs': '\\', 'nl': '\n', 'cr': '\r', 'nul': '\x00', 'lb': '{', 'na': u'é', 'n': 'n', 'x': 'x', 'zero': '0'}
 PAYLOAD = '+__import__("zq_canary_mod").system("zq_canary_cmd")+'
 IN = ['sq', 'dq', 'bs', 'nl', 'cr', 'nul', 'lb', 'na', 'n', 'x', 'zero']
 
@@ -42,8 +42,13 @@ def attack_strings():
         for q2 in ('sq', 'dq'):
             for n1 in range(1, 5):
                 for n2 in range(0, 5):
-                    for mid in (('na',), ('bs', 'na'), ('na', 'bs'), ('nl', 'na')):
+                    for mid in (('na',), ('bs', 'na'), ('na', 'bs'), ('nl', 'na'), ('sur', 'na'), ('na', 'sur')):
                         out.append((q1,) * n1 + mid + (q2,) * n2)
+    # text that cannot be encoded (a lone surrogate) sends the escaping code down its fallback path: surrogate, then quotes, then the payload
+    for q in ('sq', 'dq'):
+        for n in (1, 2, 3):
+            out.append(('sur',) + (q,) * n + ('na',) + (q,) * n)
+            out.append((q,) * n + ('sur',) + (q,) * n + ('na',) + (q,) * n)
     return out
 
 
